@@ -162,12 +162,19 @@ def run_cases(ctx: core.Ctx, cases: list[dict[str, Any]], stream: str, envs: lis
     return out
 
 
+TIMEOUT = "timeout"
+
+
 def truth_of(text: str, envs: list[dict[str, Any]]) -> str | None:
-    """truth vector of parse_marker(text) on the real code (None if it does not parse)"""
+    """truth vector of parse_marker(text) on the real code; None if the text does not parse; the sentinel TIMEOUT if the
+    real code needed longer than the per-case limit (a slow box must never look like a rejection)"""
     try:
-        m = core.with_alarm(CASE_LIMIT, lambda: impl_parse(text))
+        m = core.with_alarm(3 * CASE_LIMIT, lambda: impl_parse(text))
     except core.Timeout:
-        return None
+        return TIMEOUT
     except Exception:  # noqa: BLE001
         return None
-    return MC.truth(m, envs)
+    try:
+        return core.with_alarm(3 * CASE_LIMIT, lambda: MC.truth(m, envs))
+    except core.Timeout:
+        return TIMEOUT
